@@ -2,7 +2,7 @@
 use std::path::PathBuf;
 
 use statime_verif_harness::{out::Out, prng::Prng};
-use statime_verif_harness_linux::{metrics, wedge};
+use statime_verif_harness_linux::{fwdq, metrics, wedge};
 
 fn main() {
     let args: Vec<String> = std::env::args().collect();
@@ -11,6 +11,7 @@ fn main() {
         match args[2].as_str() {
             "metrics" => metrics::replay(&PathBuf::from(&args[3]), &work),
             "exporter" => wedge::replay(&PathBuf::from(&args[3]), &work),
+            "forwarder" => fwdq::replay(&PathBuf::from(&args[3])),
             _ => panic!("unknown stream"),
         }
         return;
@@ -44,6 +45,7 @@ fn main() {
     match stream.as_str() {
         "metrics" => metrics::generate(&mut out, &rng, thorough, &dir),
         "exporter" => wedge::generate(&mut out, &rng, thorough, &dir),
+        "forwarder" => fwdq::generate(&mut out, &rng, thorough),
         _ => panic!("unknown stream {stream}"),
     }
     out.finish();
